@@ -78,11 +78,14 @@ Record ck := mkCk {
   k_wu : bool;                 (* window-update callback past its done check, before its Send *)
   k_err : bool;                (* the receive loop met a frame for a stream that was never created *)
   k_chend : bool;              (* the channel has ended (tunnelChannel.close ran: finished, every stream cancelled, table dropped) *)
+  k_hdrs : bool;               (* gotHeaders: Header() and the grpc.Header targets are available *)
+  k_gotmsg : bool;             (* ghost: a response message frame has been accepted for the caller *)
+  k_gin : gs;                  (* ghost: the server grammar run on every frame the receive loop has taken for the id *)
   k_g : gc                     (* ghost: the grammar automaton run on everything emitted so far *)
 }.
 #[export] Instance eta_ck : Settable _ := settable! mkCk
-  <k_new; k_tab; k_done; k_stage; k_half; k_ctx; k_watched; k_sig; k_cancel_go; k_wu; k_err; k_chend; k_g>.
-Definition k_init : ck := mkCk false false None F0 false false false false false false false false GcStart.
+  <k_new; k_tab; k_done; k_stage; k_half; k_ctx; k_watched; k_sig; k_cancel_go; k_wu; k_err; k_chend; k_hdrs; k_gotmsg; k_gin; k_g>.
+Definition k_init : ck := mkCk false false None F0 false false false false false false false false false false GsStart GcStart.
 
 Inductive klbl :=
 | CNew | CSend | CHalf | CCtxEnd | CReadBad | CWuCheck | CWuSend
@@ -134,7 +137,7 @@ Definition kstep0 (k : ck) (l : klbl) : option (ck * list cframe) :=
       | FRemoved, Some c =>
           (* trailers, signals, (deferred) receiver.close and cancel; cancelStream then spawns the
              goroutine that tells the server *)
-          Some (k <| k_sig := true |> <| k_ctx := true |> <| k_stage := FPub |>
+          Some (k <| k_sig := true |> <| k_ctx := true |> <| k_stage := FPub |> <| k_hdrs := true |>
                   <| k_cancel_go := negb (by_loop c) |>, [])
       | _, _ => None
       end
@@ -145,10 +148,14 @@ Definition kstep0 (k : ck) (l : klbl) : option (ck * list cframe) :=
   | CWuSend => if k_wu k then Some (k <| k_wu := false |>, [FCwu]) else None
   | CLoop f bad =>
       if c_loop_busy k then None
-      else if k_tab k then
+      else
+      let k := k <| k_gin := gs_step (k_gin k) f |> in
+      if k_tab k then
         if bad then match f with FResp => Some (c_cas k LoopProto, []) | _ => None end
         else match f with
              | FClose => Some (c_cas k LoopClose, [])
+             | FHdr => Some (k <| k_hdrs := true |>, [])        (* headers recorded, targets filled, gotHeadersSignal closed *)
+             | FResp => Some (k <| k_gotmsg := true |>, [])     (* queued for the caller's RecvMsg *)
              | _ => Some (k, [])
              end
       else if k_new k then Some (k, [])                        (* used and disposed of: ignored *)
